@@ -48,6 +48,12 @@ CHECKS["C09"] = dict(level="model_checking", technique="TLA+ TopoSort DFS step m
 CHECKS["C02"] = dict(level="exploration", technique="TLA+ Output module-graph operators (Closed, NoDuplicateExports, IndexMatches) as oracle over parsed output of TLC-enumerated projects",
     text="Every output directory produced for the TLC-enumerated type graphs, for named types at every structural position of every site, for repeated events and a feature project is parsed into module records (imports, declarations, type/value references, lazy references) and TLC checks that every reference resolves in the right declaration space, no export is duplicated and index.ts re-exports exactly the written files.",
     note="Known finding C02-unprefixed-nested (pinned by unit tests). Built-in TS names are a fixed list.", ref="6 (C02)")
+CHECKS["C06"] = dict(level="exploration", technique="TLA+ Names operators (serde FieldRule / VariantRule transcribed char by char, WireName) as oracle, validated against the real serde derive; TLC enumerates identifiers x conventions x attribute lists; real CLI; parsed keys trace-validated by TLC",
+    text="Every legal field / variant identifier over a small alphabet up to length 4 under each of the 8 rename_all conventions and none, and 19 item-level attribute lists under every convention, is generated by the real CLI in both modes; TLC checks present iff not #[serde(skip)] and emitted key / literal = Names!WireName. The thorough tier compiles the same containers with the real serde derive and requires Names.tla to agree with it.",
+    note="skip_serializing / skip_deserializing / flatten are outside the case space. Quick: identifiers up to length 3 exhaustively + 600 of length 4.", ref="6 (C06)")
+CHECKS["C04"] = dict(level="exploration", technique="TLA+ Names!ArgKey (heck lowerCamel / snake on snake_case identifiers, unraw) as oracle; TLC enumerates parameter-class lists and identifiers; real CLI; declared / omittable / delivered key sets trace-validated by TLC",
+    text="Every sequence of up to 3 parameter classes (value, optional, injected, channel) under both supported parameter cases, with the injected parameter rotated through 11 accepted spellings and the channel through 3, and every snake_case identifier over {a,b,1,_} up to length 4 plus raw identifiers, is generated in both modes; TLC checks that the Params declaration and the object reaching invoke carry exactly the keys Tauri deserialises, omittable iff Option.",
+    note="Tauri's macro is not available offline; its key derivation (heck) is transcribed in Names.tla. Bare `Window` without generics is not in the spelling list. Known finding C04-ipc-channel-dropped.", ref="6 (C04)")
 NOT_YET = {}
 def main():
     props = [json.loads(l) for l in open(os.path.join(VERIF, "properties.jsonl"))]
